@@ -1,6 +1,6 @@
 ------------------------------ MODULE Trace_C02 -----------------------------
 (* (T) for C02: recorded bounding boxes and touched point sets vs P_C02.      *)
-EXTENDS TraceBase, P_C02, EGLine
+EXTENDS TraceBase, P_C02, EGThick
 VARIABLES l, cur      \* cur = descriptor of the current case (for the drift comparison)
 Init == l = 1 /\ cur = [d |-> [kind |-> "none"]]
 StepCase(e)  == e.ev = "case" /\ cur' = e.desc
@@ -10,7 +10,21 @@ IsSmallLine == /\ "d" \in DOMAIN cur /\ "kind" \in DOMAIN cur.d /\ cur.d.kind = 
                /\ cur.d.shape.k = "line" /\ DOMAIN cur.d = {"kind", "shape", "style"}
                /\ \A v \in {cur.d.shape.s[1], cur.d.shape.s[2], cur.d.shape.e[1], cur.d.shape.e[2]} : v >= -100 /\ v <= 100
                /\ cur.d.style.w <= 24
+\* DRIFT: styled bounding box and painted set of small THICK polylines vs the transcribed scanline renderer (EGThick),
+\* which MC_C02p explores (RowInsideBox, Equivariant)
+IsSmallThickPoly == /\ "d" \in DOMAIN cur /\ "kind" \in DOMAIN cur.d /\ cur.d.kind = "prim" /\ "shape" \in DOMAIN cur.d
+                    /\ cur.d.shape.k = "polyline" /\ DOMAIN cur.d = {"kind", "shape", "style"}
+                    /\ Len(cur.d.shape.v) >= 2 /\ Len(cur.d.shape.v) <= 6
+                    /\ \A k \in 1..Len(cur.d.shape.v) : \A c \in 1..2 : cur.d.shape.v[k][c] >= -80 /\ cur.d.shape.v[k][c] <= 80
+                    /\ \A c \in 1..2 : cur.d.shape.off[c] >= -1000 /\ cur.d.shape.off[c] <= 1000
+                    /\ cur.d.style.w >= 2 /\ cur.d.style.w <= 12 /\ cur.d.style.stroke >= 0
+ShiftBox(b, o) == <<b[1] + o[1], b[2] + o[2], b[3], b[4]>>
+ShiftSet(S, o) == { <<p[1] + o[1], p[2] + o[2]>> : p \in S }
 StepDraw(e)  == e.ev = "draw" /\ UNCHANGED cur /\
+  DriftReport(e.case, ~IsSmallThickPoly \/ e.bbox = ShiftBox(PolyThickBoxT(cur.d.shape.v, cur.d.style.w), cur.d.shape.off),
+              "thick_polyline_bounding_box_transcription", [shape |-> cur.d.shape, w |-> cur.d.style.w, bbox |-> e.bbox]) /\
+  DriftReport(e.case, ~IsSmallThickPoly \/ RunsToSet(e.touched) = ShiftSet(PolyThickSetT(cur.d.shape.v, cur.d.style.w), cur.d.shape.off),
+              "thick_polyline_pixels_transcription", [shape |-> cur.d.shape, w |-> cur.d.style.w]) /\
   DriftReport(e.case, ~IsSmallLine \/ e.bbox = LineStyledBoxT(cur.d.shape.s, cur.d.shape.e, cur.d.style.w),
               "line_styled_bounding_box_transcription", [shape |-> cur.d.shape, bbox |-> e.bbox]) /\
   LET f == DrawFails(e) IN
